@@ -30,15 +30,15 @@ def byteAt (e : Endian) (w v i : Nat) : UInt8 :=
 /-- The `w` bytes of `v`. -/
 def layout (e : Endian) (w v : Nat) : Bytes := (List.range w).map (byteAt e w v)
 
-/-- The value a `w`-byte field holds. -/
+/-- The value a `w`-byte field holds (big-endian: the same sum with the bytes taken last to first). -/
 def valueOf (e : Endian) (b : Bytes) : Nat :=
   match e with
   | .little => b.foldr (fun x acc => x.toNat + 256 * acc) 0
-  | .big => b.foldl (fun acc x => 256 * acc + x.toNat) 0
+  | .big => b.reverse.foldr (fun x acc => x.toNat + 256 * acc) 0
 
 /-- Two's-complement reading of a `bits`-bit pattern. -/
 def signedOf (bits n : Nat) : Int :=
-  if n < 2 ^ (bits - 1) then (n : Int) else (n : Int) - (2 : Int) ^ bits
+  if n < 2 ^ (bits - 1) then (n : Int) else (n : Int) - ((2 ^ bits : Nat) : Int)
 
 /-- "changes only the addressed bytes": `d'` is `d` with `[addr, addr+v.length)` replaced by `v`. -/
 def Replaced (d d' : Bytes) (addr : Nat) (v : Bytes) : Prop :=
